@@ -602,7 +602,20 @@ RefCodec = ElemCodec(z3.IntSort(), lambda v: v.r, lambda t: ObjRef(t), 'Ref')
 
 def seq_codec(inner):
     """codec for lists whose elements are themselves z3-sequence modelled lists"""
-    return ElemCodec(z3.SeqSort(inner.sort), lambda v: v.s, lambda t: SeqVal(t, inner), 'Seq_' + inner.name)
+    def pack(v):
+        if isinstance(v, (list, tuple)):
+            v = list_to_seq(v, inner)
+        return v.s
+    cod = ElemCodec(z3.SeqSort(inner.sort), pack, lambda t: SeqVal(t, inner), 'Seq_' + inner.name)
+    cod.inner = inner
+    return cod
+
+
+def list_to_seq(items, inner):
+    parts = [z3.Unit(inner.pack(e)) for e in items]
+    if not parts:
+        return SeqVal(z3.Empty(z3.SeqSort(inner.sort)), inner)
+    return SeqVal(parts[0] if len(parts) == 1 else z3.Concat(*parts), inner)
 
 _pair_sorts = {}
 
@@ -626,6 +639,23 @@ def tuple_codec(codecs):
     cod.parts = codecs
     cod.mk, cod.accs = mk, accs
     return cod
+
+
+def opt_codec(inner):
+    """codec for elements that may be None"""
+    base = tuple_codec([ElemCodec(z3.BoolSort(), lambda v: to_z3(v), lambda t: t, 'Bool'), inner])
+    dflt = z3.Const('dflt_' + inner.name, inner.sort)
+
+    def pack(v):
+        if v is None:
+            return base.mk(z3.BoolVal(True), dflt)
+        if isinstance(v, OptVal):
+            return base.mk(v.is_none, inner.pack(v.some))
+        return base.mk(z3.BoolVal(False), inner.pack(v))
+
+    def unpack(t):
+        return OptVal(z3.simplify(base.accs[0](t)), inner.unpack(z3.simplify(base.accs[1](t))), None)
+    return ElemCodec(base.sort, pack, unpack, 'Opt_' + inner.name)
 
 
 class PyList:
